@@ -124,6 +124,28 @@ func rulesTextRetFail(n int, sal []int64) string {
 
 // newDC returns a data context with the event hook, the fault operands and
 // the fail flags injected.
+// rules whose only possible failure is the expression of their top-level return (a division by dv<i>)
+func returnFaultDC(n int, f []bool) *context.DataContext {
+	dc := newDC(allFalse(n))
+	for i := 0; i < n; i++ {
+		dv := int64(1)
+		if f[i] {
+			dv = 0
+		}
+		dc.Add("dv"+itoa(i), dv)
+	}
+	return dc
+}
+
+func returnFaultText(n int, s []int64) string {
+	text := ""
+	for i := 0; i < n; i++ {
+		k := itoa(i)
+		text += "rule \"r" + k + "\" salience " + vnd.SalText(s[i]) + "\nbegin\n ev(\"r" + k + ".s\")\n ev(\"r" + k + ".e\")\n return one / dv" + k + "\nend\n"
+	}
+	return text
+}
+
 func newDC(f []bool) *context.DataContext {
 	dc := context.NewDataContext()
 	dc.Add("ev", func(s string) { vnd.Event(s) })
